@@ -98,3 +98,26 @@ Theorem C17_code_proxy_relay_tie : forall (get : str -> callres resp) url, gen_p
 Proof. exact EquivMw.proxy_relay_tie. Qed.
 Print Assumptions C17_code_proxy_relay_tie.
 
+(* ---- tie to the code (server/config.py get_location_router, server/location.py LocationConfig): theorems of coq/Equiv/EquivWiring.v (statements there), re-checked against the definitions
+   regenerated from /repo's working tree; see DESIGN.md 11.8 / 11.11 ---- *)
+From NV Require Equiv.EquivWiring.
+Theorem C17_code_location_router_tie : ltac:(let t := type of @EquivWiring.location_router_tie in exact t).
+Proof. exact (@EquivWiring.location_router_tie). Qed.
+Print Assumptions C17_code_location_router_tie.
+
+Theorem C17_code_location_routing : ltac:(let t := type of @EquivWiring.location_routing in exact t).
+Proof. exact (@EquivWiring.location_routing). Qed.
+Print Assumptions C17_code_location_routing.
+
+Theorem C17_code_proxy_location_url : ltac:(let t := type of @EquivWiring.proxy_location_url in exact t).
+Proof. exact (@EquivWiring.proxy_location_url). Qed.
+Print Assumptions C17_code_proxy_location_url.
+
+Theorem C17_code_handler_of_injective : ltac:(let t := type of @EquivWiring.handler_of_injective in exact t).
+Proof. exact (@EquivWiring.handler_of_injective). Qed.
+Print Assumptions C17_code_handler_of_injective.
+
+Theorem C17_code_validated_location : ltac:(let t := type of @EquivWiring.validated_location in exact t).
+Proof. exact (@EquivWiring.validated_location). Qed.
+Print Assumptions C17_code_validated_location.
+
